@@ -91,7 +91,7 @@ def layout(values, how, dtype="float64"):
         return np.asfortranarray(a.reshape(how["shape"]))
     if kind == "strided":
         buf = np.empty(2 * a.size + 1, dtype=a.dtype)
-        buf[:] = -12345
+        buf[:] = np.array(12345 if a.dtype.kind == "u" else -12345).astype(a.dtype)  # filler between the elements
         buf[1::2] = a
         return buf[1::2]
     if kind == "series":
@@ -111,7 +111,7 @@ def arr(values, shape, order="C", dtype="float64"):
     if order == "T":
         return np.ascontiguousarray(a.T).T
     if order == "S":
-        buf = np.full((a.shape[0] * 2, a.shape[1] * 2 + 1), -9.87e5, dtype=a.dtype)
+        buf = np.full((a.shape[0] * 2, a.shape[1] * 2 + 1), np.array(9.87e3 if a.dtype.kind == "u" else -9.87e3).astype(a.dtype), dtype=a.dtype)
         buf[::2, 1::2] = a
         return buf[::2, 1::2]
     raise ValueError(order)
